@@ -1067,6 +1067,8 @@ class SyncState:  # pylint: disable=too-many-instance-attributes, too-many-publi
             storage_dict = self._storage.read_all(data_tag)
             for eid, _ in storage_dict.items():
                 self._storage.delete(data_tag, eid)
+        # the cached row id is gone with the row: a later storage_update_data() must create a new one
+        self.data_id.pop(data_tag, None)
 
     def storage_update_data(self, data_tag, data):
         if data_tag is None:
